@@ -21,9 +21,11 @@ IsIssue(ev) == ev.fn = "ESDTTransfer" /\ ev.caller = ESDTSC
 ---------------------------------------------------------------------------
 \* C01
 \* Exactness is judged against the PERMISSIVE reference rp (flags cleared, everything payable, every role, ample gas): whether the
-\* call should have been refused for a flag, payability, a role or gas is the business of C04 / C09 / C03 / C06, not of C01.
+\* call should have been refused for a flag, payability, a role or gas is the business of C04 / C09 / C03 / C06, not of C01.  Likewise a call
+\* the permissive reference refuses (overdraft: C02; inadmissible destination: C09; hash mismatch: C08; malformed shape: C11) but the code accepts
+\* is not judged here: what it does to the sums is still covered by TransferConservation.
 P01_Exact(w, ev, w2, h, r, rp) ==
-  (Call(ev) /\ ev.fn \in TokenFns /\ IsOk(ev) /\ Pred(rp)) => (rp.ok /\ Bal(w2) = Bal(rp.w) /\ Carried(w2) = Carried(rp.w))
+  (Call(ev) /\ ev.fn \in TokenFns /\ IsOk(ev) /\ Pred(rp) /\ rp.ok) => (Bal(w2) = Bal(rp.w) /\ Carried(w2) = Carried(rp.w))
 P01_DeliveryAccepted(w, ev, w2, h, r) ==
   (ev.a = "deliver" /\ ev.fn \in TokenFns /\ ~ev.rae /\ Pred(r) /\ r.ok) => IsOk(ev)
 \* stated without the reference operator: a delivery to a destination that carries no flag at all, is payable and holds no
@@ -45,13 +47,15 @@ P01_FailKeeps(w, ev, w2, h, r) ==
 P02_Delta(w, ev, w2, h, r, rp) ==
   (Call(ev) /\ ev.fn \in SupplyFns) =>
      /\ (Pred(r) /\ r.ok) => IsOk(ev)                                   \* a nominal call has the stated effect (it is not refused)
-     /\ (IsOk(ev) /\ ev.fn # "ESDTWipe" /\ Pred(rp)) => (rp.ok /\ Bal(w2) = Bal(rp.w))   \* an accepted call changes exactly the stated amount
+     /\ (IsOk(ev) /\ ev.fn # "ESDTWipe" /\ Pred(rp) /\ rp.ok) => Bal(w2) = Bal(rp.w)   \* an accepted call changes exactly the stated amount
      /\ (IsOk(ev) /\ ev.fn = "ESDTWipe" /\ Pred(r)) => (r.ok /\ Bal(w2) = Bal(r.w))
 P02_Others(w, ev, w2, h, r) ==
   (~Call(ev) \/ ~(ev.fn \in SupplyFns \cup TokenFns)) => Bal(w2) = Bal(w)
 P02_NoOverdraft(w, ev, w2, h, r) ==
   \* taking more than the account holds fails (burn-like operations and transfers, sender side)
-  (Call(ev) /\ IsOk(ev) /\ ev.fn \in {"ESDTLocalBurn", "ESDTBurn"} /\ NArgs(ev) >= 2) => Arg(ev,2).q <= ValAt(w, ev.caller, Arg(ev,1).h)
+  /\ (Call(ev) /\ IsOk(ev) /\ ev.fn \in {"ESDTLocalBurn", "ESDTBurn"} /\ NArgs(ev) >= 2) => Arg(ev,2).q <= ValAt(w, ev.caller, Arg(ev,1).h)
+  /\ (Call(ev) /\ IsOk(ev) /\ ev.fn = "ESDTNFTBurn" /\ NArgs(ev) >= 3 /\ Arg(ev,2).n >= 0 /\ Arg(ev,3).q # Bad) =>
+        Arg(ev,3).q <= ValAt(w, ev.caller, Arg(ev,1).h \o NBHex(Arg(ev,2).n))
 
 \* C03
 P03_Authority(w, ev, w2, h, r) ==
